@@ -478,4 +478,22 @@ theorem remove_interleaved_above_nopend {x0 x : ISt} {evs : List IEv} {ws' : Lis
 
 end
 
+-- ------------------------------------------------------------------ the `AllowedAt` clause by evaluation
+
+/-- the `hsame` clause of `DomF` as a check (for concrete histories) -/
+def sameAllb (x : ISt) (n : Node) : Bool :=
+  n.chain.all (fun b' => b'.txs.all (fun t' =>
+    sameb x.s t' && x.node.chain.all (fun b0 => b0.txs.all (fun t => t.id != t'.id || decide (t = t')))))
+
+theorem sameAll_of_check {x : ISt} {n : Node} (h : sameAllb x n = true) :
+    ∀ b' ∈ n.chain, ∀ t' ∈ b'.txs, ∀ t, AllowedAt x t'.id t → t = t' := by
+  intro b' hb' t' ht' t hA
+  have h1 := List.all_eq_true.1 (List.all_eq_true.1 h b' hb') t' ht'
+  rw [Bool.and_eq_true] at h1
+  rcases hA with hp | ⟨b0, hb0, ht, hid⟩
+  · exact same_of_check h1.1 t hp
+  · have h2 := List.all_eq_true.1 (List.all_eq_true.1 h1.2 b0 hb0) t ht
+    simp only [hid, bne_self_eq_false, Bool.false_or, decide_eq_true_eq] at h2
+    exact h2
+
 end MW.Lemmas.RemoveInterleave
